@@ -442,4 +442,44 @@ def run_stage(scratch, tier, log, prop):
         else:
             obs.append(Obligation(n, "verus-0.2026.09.13/z3", DISCHARGED, per, "complete", [f], checks=1,
                                   detail="verified (%s functions verified in file)" % nver))
+    if prop in ("C03", "C04", "C07"):      # the properties whose FFT obligations use the two idioms' contracts
+        obs += f32div_lemma()
     return obs
+
+
+def f32div_lemma():
+    """L-f32div, derived (not trusted): the contracts of ceil_div_f32 / floor_div_f32 in the Verus file follow from the float model
+    Tier B uses everywhere - round-to-nearest with relative error <= 2^-24 for normal results, exactly representable results are
+    returned exactly, usize values < 2^24 convert exactly - for all a < 2^24, 0 < b < 2^24 (so a/b is 0 or in [2^-24, 2^24): no
+    underflow, overflow or subnormal result).  Nonlinear integer/real arithmetic in Z3; a bit-precise CBMC run for operands < 2^8
+    (quick) / 2^12 (thorough) cross-checks the model (kani/verif_lib__f32div.rs)."""
+    import z3
+    a, b, k, r = z3.Ints("a b k r")
+    qf = z3.Real("qf")
+    ra, rb = z3.ToReal(a), z3.ToReal(b)
+    u = z3.Q(1, 2 ** 24)
+    model = [a >= 0, a < 2 ** 24, b > 0, b < 2 ** 24, k == a / b, r == a % b, a == k * b + r, r >= 0, r < b, k >= 0,
+             qf * rb - ra <= ra * u, ra - qf * rb <= ra * u,            # |fl(a/b) - a/b| <= 2^-24 * a/b, multiplied by b > 0
+             z3.Implies(r == 0, qf == z3.ToReal(k))]                    # an integer quotient < 2^24 is representable: exact
+    out = []
+    fnames = ["synchro.rs: (x as f32 / y as f32).floor()/ceil() as usize"]
+    for name, goal in (("floor", z3.ToInt(qf) == k), ("ceil", -z3.ToInt(-qf) == z3.If(r == 0, k, k + 1))):
+        t0 = time.time()
+        sv = z3.Solver()
+        sv.set("timeout", 60000)
+        sv.add(model)
+        guard = sv.check()
+        sv.add(z3.Not(goal))
+        res = sv.check()
+        st = DISCHARGED if (res == z3.unsat and guard == z3.sat) else (FAILED if res == z3.sat else UNDECIDED)
+        out.append(Obligation("L-f32div.%s_div_f32.contract_from_rounding_model" % name, "z3", st, time.time() - t0, "complete-real", fnames, checks=2,
+                              detail="" if st == DISCHARGED else "guard=%s goal=%s %s" % (guard, res, sv.model() if res == z3.sat else "")))
+    # the exactness premise is needed (sanity: without it the ceil contract must be refutable, else the model is vacuous)
+    sv = z3.Solver()
+    sv.add(model[:-1])
+    sv.add(z3.Not(-z3.ToInt(-qf) == z3.If(r == 0, k, k + 1)))
+    t0 = time.time()
+    res = sv.check()
+    out.append(Obligation("L-f32div.model_not_vacuous(exactness premise is used)", "z3", DISCHARGED if res == z3.sat else UNDECIDED, time.time() - t0,
+                          "complete-real", fnames, checks=1, detail="" if res == z3.sat else "expected a counter-model without the exactness premise"))
+    return out
